@@ -167,13 +167,15 @@ CHECKS["C10"] = {
 CHECKS["C04"] = {
     "level": "exploration",
     "technique": "scenario generation over (A, B, initial target, range limit, server range cap, multipart style, response fragmentation) driving a call-for-call mirror of zckdl's update procedure against an in-process range server; oracle = target == B, data checksum valid, strict progress per round, and set equality between the bytes requested and the reference-computed extents of chunks neither valid in the target nor available in A",
-    "level_text": "Each generated scenario runs the whole documented procedure (header fetch, validity scan, local copy, request rounds with single-range and multipart responses, final validation) through the public API. The requested byte ranges of all rounds are compared, as a multiset of bytes, with an independent computation over the reference-parsed indexes of A and B and the initial target bytes. Sampled scenarios; thorough tier adds the real zckdl binary against a loopback server.",
+    "level_text": "Each generated scenario runs the whole documented procedure (header fetch, validity scan, local copy, request rounds with single-range and multipart responses, final validation) through the public API. The requested byte ranges of all rounds are compared, as a multiset of bytes, with an independent computation over the reference-parsed indexes of A and B and the initial target bytes. Sampled scenarios; both tiers also run the real zckdl binary (ASan build) against a loopback HTTP range server driven by Hypothesis (props/C04_zckdl.py), with the same fetch-set oracle computed by an independent Python header parser.",
     "level_note": "Trusted: reference parser/digests; the in-process server answers exactly the requested bytes (206 single body or multipart/byteranges) and 200 when asked for more ranges than it accepts. Multipart boundaries are alphanumeric here (other boundary strings are C05's subject).",
     "rule": "case = (B chunk list + config, A derivation, initial target, limit policy, server cap, style, cut style). Non-trivial = at least one chunk reused (from A or the target) AND at least one fetched AND a multipart response used; distinct by choice-sequence hash.",
     "assumptions": ["server holds B unchanged for the whole update", "A is an intact zchunk file (damaged sources are C08's subject)"],
     "runs": [
         {"bin": "asan/C04", "cases": P(5000, 60000), "procs": P(8, 16), "size": 70, "shrink_budget": 300, "cpu_limit": 60},
+        {"kind": "script", "bin": "props/C04_zckdl.py", "cases": P(40, 500), "procs": P(4, 16), "args": ["--property", "C04"]},
     ],
+    "extra_targets": ["asan/tools/zck", "asan/tools/zckdl"],
 }
 
 CHECKS["C05"] = {
@@ -222,7 +224,9 @@ CHECKS["C11"] = {
     "assumptions": ["the uninterrupted update of the scenario succeeds (else the scenario is C04's business and is skipped)", "no power loss / reordering below the write() level"],
     "runs": [
         {"bin": "asan/C11", "cases": P(28, 500), "procs": P(8, 16), "size": 70, "shrink_budget": 40, "cpu_limit": 300},
+        {"kind": "script", "bin": "props/C04_zckdl.py", "cases": P(30, 400), "procs": P(4, 16), "args": ["--property", "C11"]},
     ],
+    "extra_targets": ["asan/tools/zck", "asan/tools/zckdl"],
 }
 
 TOOLS_WRAP = ["asan/tools-wrap/zck", "asan/tools-wrap/unzck"]
